@@ -212,6 +212,7 @@ def save_replay(prop, v, idx):
 
 
 def finish(prop, tier, level, coverage, violations, t0, assumptions=(), extra=None, max_print=10):
+    max_print = int(os.environ.get('VERIF_MAX_PRINT', max_print))
     """Classify violations, print VIOLATION / KNOWN-FINDING lines, write evidence, exit."""
     new, old = classify(prop, violations)
     for sig, (k, vs) in sorted(old.items()):
@@ -229,6 +230,9 @@ def finish(prop, tier, level, coverage, violations, t0, assumptions=(), extra=No
             if v.get('desc'):
                 print('  ' + str(v.get('desc'))[:600])
             shown += 1
+    if os.environ.get('VERIF_VERBOSE'):
+        for sg in sorted(seen):
+            print('  SIG ' + str(sg))
     if len(seen) > shown:
         print('  ... %d further distinct violation signature(s) not printed' % (len(seen) - shown))
     cov = dict(coverage)
